@@ -1854,6 +1854,11 @@ pub fn f_edge(seed: u64) -> Plan {
         plan.knobs.stall_permille = *rng.pick(&[150u32, 400, 700]);
         plan.knobs.stall_max_us = *rng.pick(&[3_000u64, 8_000]);
     }
+    let slow_actor_only = stalls && plan.knobs.site_mask.count_ones() == 1;
+    if slow_actor_only {
+        plan.knobs.stall_permille = 700;
+        plan.knobs.stall_max_us = 8_000;
+    }
     let topic = topic_name("proj-e", 0);
     let sub = sub_name("proj-e", 0, 0);
     let dl = *rng.pick(&[10i32, 10, 12, 20]);
@@ -1886,7 +1891,7 @@ pub fn f_edge(seed: u64) -> Plan {
         slot += 1;
     }
     // the request that arrives when the first lease ends
-    let offset = if stalls { *rng.pick(&[-1_000i64, -2_000, -4_000, -7_000, 0, -1]) } else { *rng.pick(&[0i64, 0, 0, 0, -1, 1, -1_000, 1_000, 999, -999]) };
+    let offset = if slow_actor_only { *rng.pick(&[-1_000i64, -2_000]) } else if stalls { *rng.pick(&[-1_000i64, -2_000, -4_000, -7_000, 0, -1]) } else { *rng.pick(&[0i64, 0, 0, 0, -1, 1, -1_000, 1_000, 999, -999]) };
     let op = match if stalls && rng.chance(500) { 4 } else { rng.below(8) } {
         0 | 1 | 2 => Op::Ack { sub: sub.clone(), sel: sel_any(Pick::Nth(1)) },
         3 => Op::ModAck { sub: sub.clone(), sel: sel_any(Pick::Nth(1)), secs: *rng.pick(&[0i32, 30]) },
@@ -1899,7 +1904,7 @@ pub fn f_edge(seed: u64) -> Plan {
     if stalls && rng.chance(700) {
         // another client's request a few ms ahead of it: the actor may be held up (schedule point at
         // the top of its loop) right after handling that one, across the end of the lease
-        let ahead = offset - *rng.pick(&[1_000i64, 2_000, 3_000, 5_000]);
+        let ahead = offset - if slow_actor_only { *rng.pick(&[1_000i64, 2_000]) } else { *rng.pick(&[1_000i64, 2_000, 3_000, 5_000]) };
         scripts.push(vec![
             Step::new(Op::SleepUntilLeaseEnd { sub: sub.clone(), nth: 0, secs: dl, offset_us: ahead, from_invoke: true }),
             Step::new(Op::Ack { sub: sub.clone(), sel: Sel { mine: false, pick: Pick::None, extra: vec!["515150".into()], ..Sel::none() } }),
